@@ -340,10 +340,28 @@ func tweak(r *c.Rng, v *node) *node {
 		switch {
 		case len(s) > 0 && strings.Trim(s, "0123456789") == "": // integer string
 			n, _ := sdkmath.NewIntFromString(s)
+			switch r.Intn(6) {
+			case 0: // the same digits, another magnitude
+				return nStr(s + c.Pick(r, []string{"0", "00", "000000"}))
+			case 1:
+				if t := strings.TrimRight(s, "0"); t != "" && t != s {
+					return nStr(t)
+				}
+			}
 			return nStr(n.AddRaw(int64(r.Range(1, 7))).String())
 		case strings.Contains(s, ".") && strings.Trim(s, "0123456789.") == "": // decimal string
 			d, err := sdk.NewDecFromStr(s)
 			if err == nil {
+				switch r.Intn(8) {
+				case 0, 1: // the same digits, another magnitude (2.0 -> 20.0, 200.0, 0.2): a different value
+					return nStr(d.MulInt64(c.Pick(r, []int64{10, 100, 1000000})).String())
+				case 2:
+					return nStr(d.QuoInt64(c.Pick(r, []int64{10, 100})).String())
+				case 3: // the same value written differently (a different JSON string)
+					if t := strings.TrimRight(strings.TrimRight(s, "0"), "."); t != "" && t != s {
+						return nStr(t)
+					}
+				}
 				return nStr(d.Add(sdk.NewDecWithPrec(int64(r.Range(1, 9)), 10)).String())
 			}
 		}
